@@ -6,7 +6,7 @@ PLAN = {
     'units': [{'name': 'timer', 'tu': 'src/timer.cpp', 'roots': TIMER_ROOTS,
                'must_fire': ['ASSERT(c) -> VERIF_ASSERT', 'std::function invocation -> CB_<Class>_<field> stub']}],
     'harness_files': ['harness/c15.c'],
-    'contract_files': ['contracts/timer.h'],
+    'contract_files': ['contracts/timer_contracts.h'],
     'spec_files': ['spec/timer_spec.h'],
     'native': {'bridges': ['replay/bridge_timer.cpp']},
     'obligations': [
